@@ -43,9 +43,10 @@ PROGRAMS = [
     ('unterminated', "foo(a).\nbar('unterminated).\n", 'syntax'),
     ('linebreaks', "m1('five\rsix').\nm2('a\r\nb').\nm3('x\x0by', 'p\x0cq').\nm4('u\x85v', 's\u2028t', 'w\u2029z', 'i\x1cj\x1dk\x1el').\n"
                    "p(X) :- 'go\rdef'(X), X = 'cr\rafter'.\ngreet('hello\rdef injected_0():\r  yield False\rmakelist = variable\r#').\n", 'ok'),
+    ('directives-discontiguous', ":- init(_, _).\np(_, a).\nq(_, X) :- p(_, X).\np(b, _) :- q(_, _).\n:- other(_).\nq(_, _).\nr([_|_], f(_)).\np(_, _) :- r(_, _).\n", 'ok'),
     ('multiline-clause', "longer(\n  'first\nsecond',\n  X\n) :-\n  true,\n  X = 'x'.\n", 'ok'),
 ]
-QUICK = ['facts', 'newlines', 'unicode', 'syntax-error', 'control', 'linebreaks']
+QUICK = ['facts', 'newlines', 'unicode', 'syntax-error', 'control', 'linebreaks', 'too-large', 'directives-discontiguous']
 FLAGS = ['-d', '--debug-parser', '--debug-generator', '--debug-filename']
 
 
